@@ -298,6 +298,28 @@ def _(rng, t, i): t[i:i] = [b'discard']; return t
 def _(rng, t, i): t[i:i] = [b'reject']; return t
 @edit('reject-outside-stdin', 'exclusive_maildir')
 def _(rng, t, i): t[i] = b'reject'; return t
+@edit('reject-in-maildir-after-stdin', 'kw_maildir')
+def _(rng, t, i):
+    # a stdin block somewhere before a maildir block that uses reject (top level or nested)
+    if b'stdin' not in t:
+        t = [b'stdin', b'{', b'match', b'all', b'break', b'}'] + t
+    tail = rng.choice([[b'match', b'all', b'reject'],
+                       [b'match', b'new', b'{', b'match', b'all', b'reject', b'}'],
+                       [b'match', b'old', b'move', b'"x"', b'match', b'all', b'reject']])
+    return t + [b'maildir', b'"after"', b'{'] + tail + [b'}']
+@edit('reject-in-maildir-before-stdin', 'kw_maildir')
+def _(rng, t, i):
+    pre = [b'maildir', b'"before"', b'{', b'match', b'all', b'reject', b'}']
+    return pre + t if b'stdin' in t else pre + t + [b'stdin', b'{', b'match', b'all', b'break', b'}']
+@edit('maildir-dev-stdin-then-stdin', 'kw_maildir')
+def _(rng, t, i):
+    if b'stdin' in t:
+        return None
+    return [b'maildir', b'"/dev/stdin"', b'{', b'match', b'all', b'break', b'}'] + t + [b'stdin', b'{', b'match', b'all', b'break', b'}']
+@edit('nul-then-garbage', 'kw_maildir')
+def _(rng, t, i): return t + [b'\x00'] + rng.choice([[b'garbage', b'{', b'{'], [], [b'maildir', b'"z"', b'{', b'}'], [b'"str"']])
+@edit('nul-between-blocks', 'kw_maildir')
+def _(rng, t, i): return [b'\x00'] + t if rng.randrange(2) else t[:i] + [b'\x00'] + t[i:]
 @edit('second-stdin', 'kw_maildir')
 def _(rng, t, i):
     if b'stdin' not in [x for x in t if x == b'stdin'] or True:
@@ -407,7 +429,7 @@ def run(ck):
     stats = dict(valid=0, invalid=0, mutated=0, dis=0, viol=0, binary=0, classes={})
     samples = []
     cases = []        # (kind, class, text)
-    nvalid = 150 if q else 4000
+    nvalid = 150 if q else 1200
     for i in range(nvalid):
         g = Gen(rng).config()
         text = layout(rng, g.toks)
@@ -444,13 +466,17 @@ def run(ck):
     lines = ['conf %s %s' % (hexs(t), hexs(HOME)) for k, c, t in cases]
     impl = []
     CH = 400
-    for s0 in range(0, len(lines), CH):
-        out, r = common.run_lines(drv, lines[s0:s0 + CH], timeout=900, env=env)
-        if len(out) != len(lines[s0:s0 + CH]):
-            out += ['DIED driver'] * (len(lines[s0:s0 + CH]) - len(out))
-        impl += out
+    if q:
+        for s0 in range(0, len(lines), CH):
+            out, r = common.run_lines(drv, lines[s0:s0 + CH], timeout=900, env=env)
+            if len(out) != len(lines[s0:s0 + CH]):
+                out += ['DIED driver'] * (len(lines[s0:s0 + CH]) - len(out))
+            impl += out
+    else:
+        # thorough: the driver forks one child per file; shard the (independent) requests over the cores
+        impl = common.par_lines(drv, lines, timeout=3000, env=env)
     # the patterns each configuration would hand to regcomp (model, assuming all valid), judged by the platform
-    pats, _ = common.run_lines(model, ['confpats %s %s' % (hexs(t), hexs(HOME)) for k, c, t in cases], timeout=1800)
+    pats = common.par_lines(model, ['confpats %s %s' % (hexs(t), hexs(HOME)) for k, c, t in cases], timeout=3000, filler='-')
     allp = set()
     for o in pats:
         if o not in ('-', ''):
@@ -465,7 +491,7 @@ def run(ck):
     for l, o in zip(lines, pats):
         bad = [e for e in (o.split(',') if o not in ('-', '') else []) if verdict.get(e) == 'E']
         mlines.append(l + ' ' + (','.join(bad) or '-'))
-    mod, _ = common.run_lines(model, mlines, timeout=1800)
+    mod = common.par_lines(model, mlines, timeout=3000, filler='DIED model')
     for (kind, cls, text), a, b in zip(cases, impl, mod):
         stats[kind] += 1
         rep = {'kind': kind, 'class': cls, 'config_hex': hexs(text), 'config': text[:1500].decode(errors='replace'), 'impl': a[:1000], 'model': b[:1000]}
